@@ -1,5 +1,6 @@
 import TJ.Proofs.PrngLimit
 import TJ.Proofs.AeadDecCore
+import TJ.Proofs.HashEmpty
 namespace TJ.MiniC.Hoare
 open TJ TJ.MiniC TJ.MiniC.PermC TJ.Gen.MiniC
 
@@ -29,5 +30,81 @@ theorem deliver_block (st : St) (b base off : Nat) (X : Array LByte) (hm : st.me
     rw [resolve_byte hm off (by omega) (by omega)]
     simp only [blockBytes_of hm]
     rw [if_neg (by omega)]
+
+theorem prog_prng_system : prog[idx_tinyjambu_prng_system]? = some f_tinyjambu_prng_system := by
+  simp only [prog, idx_tinyjambu_prng_system, List.getElem?_cons_succ, List.getElem?_cons_zero]
+
+/-- the address of `tinyjambu_prng_system` as a function pointer -/
+def sysCb : Nat := fnBase + idx_tinyjambu_prng_system
+
+/-- an indirect call that reaches `tinyjambu_prng_system` (the regenerated function: one `tinyjambu_trng_generate`, modelled as one delivery of the entropy
+    script; the result is `size` when the source reported success and 0 otherwise) -/
+theorem runs_calli_system {dst : Nat} {fp : Expr} {args : List Expr} {env : Env} {st : St} {P : Sig → Env → St → Prop}
+    (a0 : LVal) (buf : Nat) (v : LVal) (st1 : St)
+    (hf : evalE env fp = .ok (sysCb, .pub)) (hargs : evalArgs env args = .ok [a0, (buf, .pub), (32, .pub)])
+    (hd : deliver { st with leak := .icall sysCb :: st.leak } buf 32 = .ok (v, st1)) (hsz : st1.mem.size = st.mem.size)
+    (h : P .normal (setVar env dst (if v.1 ≠ 0 then 32 else 0, .pub)) { st1 with leak := .br (v.1 != 0) :: st1.leak }) (hvl : v.2 = .pub) : RunsTo prog (.calli (some dst) fp args) env st P := by
+  obtain ⟨vv, vl⟩ := v
+  simp only at hvl; subst hvl
+  have hext : st1.mem.extract 0 st.mem.size = st1.mem := by rw [← hsz]; exact extract_self _
+  have hne : ¬ sysCb = userCb := by decide
+  have hge : ¬ sysCb < fnBase := by decide
+  have hsub : sysCb - fnBase = idx_tinyjambu_prng_system := by decide
+  have hent : enterFun f_tinyjambu_prng_system [a0, (buf, .pub), (32, .pub)] st.mem = (#[a0, (buf, .pub), (32, .pub), (0, .undef)], st.mem) := rfl
+  refine ⟨4, .normal, setVar env dst (if vv ≠ 0 then 32 else 0, .pub), { st1 with leak := .br (vv != 0) :: st1.leak }, ?_, h⟩
+  have he : exec prog 2 (.entropy (some 3) (.var 1)) #[a0, (buf, .pub), (32, .pub), (0, .undef)] { st with leak := .icall sysCb :: st.leak } =
+      .ok .normal #[a0, (buf, .pub), (32, .pub), (vv, .pub)] st1 := by
+    rw [exec]
+    simp only [evalE, List.getElem?_toArray, List.getElem?_cons_succ, List.getElem?_cons_zero, reduceCtorEq, if_false, ne_eq, not_true_eq_false, hd, assignDst]
+    rfl
+  have hbody : exec prog 3 f_tinyjambu_prng_system.body #[a0, (buf, .pub), (32, .pub), (0, .undef)] { st with leak := .icall sysCb :: st.leak } =
+      .ok (.ret (some (if vv ≠ 0 then 32 else 0, .pub))) #[a0, (buf, .pub), (32, .pub), (vv, .pub)] { st1 with leak := .br (vv != 0) :: st1.leak } := by
+    show exec prog 3 (.seq (.entropy (some 3) (.var 1)) (.ite (.var 3) (.ret (some (.var 2))) (.ret (some (.cast .u64 .i32 (.lit 0)))))) _ _ = _
+    rw [exec, he]
+    simp only
+    rw [exec]
+    simp only [evalE, List.getElem?_toArray, List.getElem?_cons_succ, List.getElem?_cons_zero, reduceCtorEq, if_false, ne_eq, not_true_eq_false]
+    by_cases hv0 : vv = 0
+    · subst hv0
+      simp only [bne_self_eq_false, Bool.false_eq_true, if_false, not_true_eq_false]
+      rw [exec]; simp only [evalE, castVal_u64_i32_0]
+    · have : (vv != 0) = true := by simpa using hv0
+      simp only [this, if_true, hv0, not_false_eq_true]
+      rw [exec]; simp only [evalE, List.getElem?_toArray, List.getElem?_cons_succ, List.getElem?_cons_zero, reduceCtorEq, if_false]
+  rw [exec]
+  simp only [hf, hargs, ne_eq, not_true_eq_false, if_false, hne, hge, hsub, prog_prng_system, List.length_cons, List.length_nil]
+  rw [hent]
+  simp only [show f_tinyjambu_prng_system.nparams = 3 from rfl, not_true_eq_false, if_false]
+  rw [hbody]
+  simp only [leaveFun, assignDst, Sig.retVal, hext]
+
+
+/-- the callback values the PRNG proofs cover: the user callback of the semantics, or the library's `tinyjambu_prng_system` -/
+def CbOk (cbv : Nat) : Prop := cbv = userCb ∨ cbv = sysCb
+
+/-- what the callback returns when asked for 32 bytes and the entropy script delivers `d` -/
+def cbRet (cbv : Nat) (d : Delivery) : Nat := if cbv = userCb then d.2 else (if d.2 ≠ 0 then 32 else 0)
+
+theorem cbRet_user (d : Delivery) : cbRet userCb d = d.2 := by simp [cbRet]
+
+/-- **one call through the stored callback pointer** (user callback or system source): one delivery of the entropy script into a 32-byte window -/
+theorem runs_calli_cb {dst : Nat} {fp : Expr} {args : List Expr} {env : Env} {st : St} {P : Sig → Env → St → Prop}
+    (cbv : Nat) (hk : CbOk cbv) (a0 : LVal) (b base off : Nat) (X : Array LByte)
+    (hf : evalE env fp = .ok (cbv, .pub)) (hargs : evalArgs env args = .ok [a0, (mkPtr b (base + off), .pub), (32, .pub)])
+    (hm : st.mem[b]? = some ⟨X, base⟩) (hin : off + 32 ≤ X.size) (hlt : base + X.size < ptrBase)
+    (h : ∀ L, P .normal (setVar env dst (cbRet cbv (st.ent.headD ([], 0)), .pub))
+      { mem := setBlock st.mem b (writeBytes X off (((st.ent.headD ([], 0)).1.take (min (st.ent.headD ([], 0)).1.length 32)).map fun x => (x, Lab.sec))), ent := st.ent.tail, leak := L }) :
+    RunsTo prog (.calli (some dst) fp args) env st P := by
+  rcases hk with hk | hk
+  · subst hk
+    have hdel := deliver_block { st with leak := .icall userCb :: st.leak } b base off X hm hin hlt
+    refine runs_calli_user a0 (mkPtr b (base + off)) 32 _ _ hf hargs hdel ?_
+    rw [← cbRet_user]; exact h _
+  · subst hk
+    have hdel := deliver_block { st with leak := .icall sysCb :: st.leak } b base off X hm hin hlt
+    refine runs_calli_system a0 (mkPtr b (base + off)) _ _ hf hargs hdel (by show (setBlock st.mem b _).size = _; rw [size_setBlock']) ?_ rfl
+    have hc : cbRet sysCb (st.ent.headD ([], 0)) = if (st.ent.headD ([], 0)).2 ≠ 0 then 32 else 0 := by
+      unfold cbRet; rw [if_neg (by decide)]
+    rw [← hc]; exact h _
 
 end TJ.MiniC.Hoare
